@@ -7,7 +7,7 @@ from .. import contracts, gen, ref
 from ..core import FAILED
 
 DECIDING = ["O1:apply", "O1:apply-choi", "O2:kraus_to_choi", "O3:choi_to_kraus-action", "O3:choi_to_kraus-rebuilds", "O4:chain",
-            "O5:partial_channel", "O6:natural_representation", "O1:apply-rectangular-pairs"]
+            "O5:partial_channel", "O6:natural_representation", "O1:apply-rectangular-pairs", "O7:channel_dim"]
 RULE = ("cases = random maps (d_in, d_out in 1..4, Kraus rank 1..d_in*d_out, real/complex, CP / Hermiticity-preserving non-CP / general) "
         "in every accepted representation form; a signature is (monitor, form, d_in, d_out, rank class, field, class) and is non-trivial "
         "when d_in != d_out or entries are complex or the map is not CP")
@@ -27,6 +27,8 @@ def cases(tier):
         out.append(("partial", r))
     for r in range(60 if tier == "quick" else 1500):
         out.append(("rect", r))
+    for r in range(60 if tier == "quick" else 1500):
+        out.append(("chdim", r))
     return out
 
 
@@ -195,3 +197,57 @@ def _run_rect(ctx, spec, rng):
         j_ref = ref.choi_of(a_ops, b_ops, ai, bi)
         ctx.check("O2:kraus_to_choi-rectangular", None, dev=_rel(j_lib, j_ref), tol=1e-9, sig=(ai != bi, ao != bo), nt=(ai, ao) != (bi, bo),
                   mech="kraus_to_choi:rectangular-pairs", detail={"shapes": [ai, ao, bi, bo]})
+
+
+def _run_chdim(ctx, spec, rng):
+    """channel_dim: the dimension bookkeeping every representation-dependent function relies on."""
+    from toqito.helper import channel_dim
+
+    din, dout = int(rng.integers(1, 5)), int(rng.integers(1, 5))
+    r = int(rng.integers(1, 5))
+    a_ops = [gen.rc(rng, dout, din) for _ in range(r)]
+    rect = spec[1] % 3 == 0
+    bi, bo = (int(rng.integers(1, 4)), int(rng.integers(1, 4))) if rect else (din, dout)
+    b_ops = [gen.rc(rng, bo, bi) for _ in range(r)]
+    forms = {"pairs": [[a, b] for a, b in zip(a_ops, b_ops)]}
+    if not rect:
+        forms["flat"] = list(a_ops)
+        forms["col"] = [[a] for a in a_ops]
+        if r > 2:
+            forms["row"] = [list(a_ops)]
+    for name, f in forms.items():
+        res = ctx.call(channel_dim, f)
+        if res is FAILED:
+            continue
+        d_in, d_out, d_e = res
+        cp_form = name != "pairs"
+        want_in = [din, din] if cp_form else [din, bi]
+        want_out = [dout, dout] if cp_form else [dout, bo]
+        ok = list(np.asarray(d_in).reshape(-1)) == want_in and list(np.asarray(d_out).reshape(-1)) == want_out and int(d_e) == r
+        ctx.check("O7:channel_dim", ok, sig=(name, rect, din != dout), nt=din != dout or rect, mech=f"channel_dim:kraus[{name}]",
+                  detail={"form": name, "got": [d_in, d_out, d_e], "want": [want_in, want_out, r]})
+    j = ref.choi_of(a_ops, a_ops, din)
+    res = ctx.call(channel_dim, j, dim=[din, dout])
+    if res is not FAILED:
+        d_in, d_out, d_e = res
+        rank = int(np.linalg.matrix_rank(j))
+        ok = list(np.asarray(d_in).reshape(-1)) == [din, din] and list(np.asarray(d_out).reshape(-1)) == [dout, dout] and int(d_e) == rank
+        ctx.check("O7:channel_dim", ok, sig=("choi+dim", din != dout), nt=din != dout, mech="channel_dim:choi-with-dim", detail={"got": [d_in, d_out, d_e], "want": [din, dout, rank]})
+        ctx.sample("O7:channel_dim", {"d_in": din, "d_out": dout, "rank": rank})
+    if din == dout:
+        res = ctx.call(channel_dim, j)
+        if res is not FAILED:
+            ok = list(np.asarray(res[0]).reshape(-1)) == [din, din] and list(np.asarray(res[1]).reshape(-1)) == [din, din]
+            ctx.check("O7:channel_dim", ok, sig=("choi-default",), mech="channel_dim:choi-default", detail={"got": res[:2], "d": din})
+        res = ctx.call(channel_dim, j, allow_rect=False, compute_env_dim=False)
+        if res is not FAILED:
+            ctx.check("O7:channel_dim", int(res[0]) == din and int(res[1]) == din and res[2] is None, sig=("choi-square-scalar",), mech="channel_dim:allow_rect=False", detail={"got": res, "d": din})
+    elif din * dout not in (1, 4, 9, 16) or int(round(np.sqrt(din * dout))) ** 2 != din * dout:
+        res = ctx.call(channel_dim, j, expect=(ValueError,))
+        if res is not FAILED:
+            ctx.check("O7:channel_dim", isinstance(res, ValueError), sig=("choi-unequal-needs-dim",), mech="channel_dim:accepts-ambiguous-choi", detail={"din": din, "dout": dout})
+    if r >= 2 and dout > 1:
+        bad = [a_ops[0], a_ops[1][:-1, :]]
+        res = ctx.call(channel_dim, bad, expect=(ValueError,))
+        if res is not FAILED:
+            ctx.check("O7:channel_dim", isinstance(res, ValueError), sig=("mismatched-kraus-sizes",), mech="channel_dim:accepts-mismatched-kraus", detail={})
